@@ -759,7 +759,15 @@ def snrm2(x, dims, mnl = 0):
     Returns the norm of a vector in S
     """
 
-    return math.sqrt(sdot(x, x, dims, mnl))
+    a = sdot(x, x, dims, mnl)
+    if a >= 1e-280 or len(x) == 0: return math.sqrt(a)
+
+    # The squares underflow if x is very small.  Rescale, so that the 
+    # norm of a nonzero vector is not returned as zero.
+    t = max(abs(x))
+    if t == 0.0 or not t < float('inf'): return math.sqrt(a)
+    y = x / t
+    return t * math.sqrt(sdot(y, y, dims, mnl))
 
 
 if use_C:
